@@ -97,6 +97,10 @@ class GenUnit:
             out = self.fn(ctx)
             if isinstance(out, tuple):
                 u.obs, u.info = out
+                u.info = dict(u.info)
+                rp = u.info.pop("replayer", None)
+                if rp is not None:
+                    u.replayer = rp
             else:
                 u.obs = out
         except UndecidedError as e:
